@@ -112,6 +112,127 @@ BRS_POLL_READ_BODY = ('letdata=ready!(self.stream.poll_data(cx))?;ifletSome(mutd
                       'Poll::Ready(Ok(false))}else{self.eos=true;Poll::Ready(Ok(true))}')
 
 
+import json
+import os
+
+BODIES_SNAPSHOT = os.path.join(os.path.dirname(os.path.abspath(__file__)), 'snapshots', 'GenWebTransport.bodies.json')
+
+# masks: the sites that are read as facts (everything else of a body must be literally what the model was written against)
+M_CONV = (r'value\.(into_inner|index)\(\)', 'value.<CONV>()')
+M_ENC = (r'VarInt::from_u64\(self\.0(/\d+|>>\d+)?\)', 'VarInt::from_u64(<EXPR>)')
+M_NUM = (r'=(0x[0-9a-fA-F]+|\d+),', '=<V>,')
+M_RESET = (r'self\.expected=None;', '')
+M_GUARD = (r'AcceptedRecvStream::WebTransportUni\(id,s\)(if!?self\.config\.settings\.enable_webtransport)?=>', 'AcceptedRecvStream::WebTransportUni(id,s)<GUARD>=>')
+M_DISABLED = (r'AcceptedRecvStream::WebTransportUni\(_,mutstream\)=>\{stream\.stop_sending\(Code::\w+\.value\(\)\);\}', '')
+M_RGUARD = (r'if!p\.(has_remaining|is_eos)\(\)\{', 'if<RGUARD>{')
+M_SPLIT = (r'buf:(self\.buf|BufList::new\(\)),eos', 'buf:<HALF>,eos')
+M_CMP = (r'buf\.remaining\(\)(>=|>)expected', 'buf.remaining()<CMP>expected')
+
+
+def top_fn(src, name, after_regex=None):
+    after = 0
+    if after_regex:
+        m = re.search(after_regex, src.text)
+        if not m:
+            raise AnchorLost('%s in %s' % (after_regex, src.path))
+        after = m.start()
+    body, _ = src.fn_body(name, after=after)
+    return squash(body)
+
+
+def impl_fn(src, impl_regex, name):
+    blk, _, _ = src.item_block(impl_regex)
+    return inner_fn_body(blk, name)
+
+
+def whole_block(src, regex):
+    blk, _, _ = src.item_block(regex)
+    return squash(blk)
+
+
+def collect_bodies(repo):
+    """key -> comment-free, whitespace-free body with the fact sites masked"""
+    sid = Source(repo + '/h3/src/webtransport/session_id.rs')
+    pf = Source(repo + '/h3/src/proto/frame.rs')
+    ps = Source(repo + '/h3/src/proto/stream.rs')
+    st = Source(repo + '/h3/src/stream.rs')
+    fr = Source(repo + '/h3/src/frame.rs')
+    cn = Source(repo + '/h3/src/connection.rs')
+    sv = Source(repo + '/h3-webtransport/src/server.rs')
+    out = {}
+
+    def put(key, text, *masks):
+        for rx, rep in masks:
+            text = re.sub(rx, rep, text)
+        out[key] = text
+
+    # session id: the whole file below the imports
+    put('session_id.rs', squash(sid.text[sid.text.index('pub struct SessionId'):]), M_CONV, M_ENC)
+    # constants (names and order pinned, values are facts)
+    m = re.search(r'(?m)^frame_types!\s*\{', pf.text)
+    if not m:
+        raise AnchorLost('frame_types! invocation')
+    i = pf.text.index('{', m.start())
+    put('frame_types', squash(pf.text[i:match_close(pf.text, i) + 1]), M_NUM)
+    m = re.search(r'(?m)^stream_types!\s*\{', ps.text)
+    if not m:
+        raise AnchorLost('stream_types! invocation')
+    i = ps.text.index('{', m.start())
+    put('stream_types', squash(ps.text[i:match_close(ps.text, i) + 1]), M_NUM)
+    put('StreamType::encode', impl_fn(ps, r'impl\s+Encode\s+for\s+StreamType', 'encode'))
+    put('StreamType::from_value', top_fn(ps, 'from_value'))
+    put('FrameType::decode', top_fn(pf, 'decode', r'impl\s+FrameType\s*\{'))
+    put('write_var', impl_fn(Source(repo + '/h3/src/proto/varint.rs'), r'impl<T:\s*BufMut>\s*BufMutExt\s+for\s+T', 'write_var'))
+    # Frame::decode: the statement prefix up to the end of the WebTransport special case
+    fd = top_fn(pf, 'decode', r'impl\s+Frame<PayloadLen>')
+    end = 'returnOk(Frame::WebTransportStream(SessionId::decode(buf)?));}'
+    if end not in fd:
+        raise AnchorLost('Frame::decode WebTransport special case')
+    put('Frame::decode(head)', fd[:fd.index(end) + len(end)])
+    # stream.rs
+    put('UniStreamHeader::encode', impl_fn(st, r'impl\s+Encode\s+for\s+UniStreamHeader', 'encode'))
+    put('BidiStreamHeader::encode', impl_fn(st, r'impl\s+Encode\s+for\s+BidiStreamHeader', 'encode'))
+    put('WriteBuf::from(UniStreamHeader)', impl_fn(st, r'impl<B>\s*From<UniStreamHeader>\s+for\s+WriteBuf<B>', 'from'))
+    put('WriteBuf::from(BidiStreamHeader)', impl_fn(st, r'impl<B>\s*From<BidiStreamHeader>\s+for\s+WriteBuf<B>', 'from'))
+    put('WriteBuf::encode_value', top_fn(st, 'encode_value'))
+    for fn in ('remaining', 'chunk', 'advance'):
+        put('WriteBuf::' + fn, impl_fn(st, r'impl<B>\s*Buf\s+for\s+WriteBuf<B>', fn))
+    put('AcceptRecvStream::new', impl_fn(st, r'impl<S,\s*B>\s*AcceptRecvStream<S,\s*B>', 'new'))
+    put('AcceptRecvStream::into_stream', impl_fn(st, r'impl<S,\s*B>\s*AcceptRecvStream<S,\s*B>', 'into_stream'))
+    put('AcceptRecvStream::poll_next_varint', impl_fn(st, r'impl<S,\s*B>\s*AcceptRecvStream<S,\s*B>', 'poll_next_varint'), M_RESET, M_CMP)
+    put('AcceptRecvStream::poll_type', impl_fn(st, r'impl<S,\s*B>\s*AcceptRecvStream<S,\s*B>', 'poll_type'))
+    put('BufRecvStream::new', impl_fn(st, r'impl<S,\s*B>\s*BufRecvStream<S,\s*B>\s*\{', 'new'))
+    # frame.rs
+    put('FrameStream::new', top_fn(fr, 'new'))
+    put('FrameStream::into_inner', top_fn(fr, 'into_inner'))
+    put('FrameStream::poll_next', top_fn(fr, 'poll_next'))
+    put('FrameStream::try_recv', top_fn(fr, 'try_recv'))
+    put('FrameDecoder::decode', top_fn(fr, 'decode', r'impl\s+FrameDecoder\s*\{'))
+    # connection.rs
+    put('poll_accept_recv', top_fn(cn, 'poll_accept_recv'), M_GUARD, M_DISABLED)
+    put('accepted_streams_mut', top_fn(cn, 'accepted_streams_mut'))
+    # h3-webtransport server
+    wts = r'impl<C,\s*B>\s*WebTransportSession<C,\s*B>'
+    for fn in ('accept', 'accept_uni', 'accept_bi', 'open_bi', 'open_uni', 'session_id'):
+        put('WebTransportSession::' + fn, impl_fn(sv, wts, fn))
+    put('OpenBi::poll', impl_fn(sv, r"impl<'a,\s*B,\s*C>\s*Future\s+for\s+OpenBi<'a,\s*C,\s*B>", 'poll'))
+    put('OpenUni::poll', impl_fn(sv, r"impl<'a,\s*C,\s*B>\s*Future\s+for\s+OpenUni<'a,\s*C,\s*B>", 'poll'))
+    put('AcceptUni::poll', impl_fn(sv, r"impl<'a,\s*C,\s*B>\s*Future\s+for\s+AcceptUni<'a,\s*C,\s*B>", 'poll'))
+    put('validate_wt_connect', top_fn(sv, 'validate_wt_connect'))
+    return out
+
+
+def check_bodies(repo):
+    got = collect_bodies(repo)
+    try:
+        ref = json.load(open(BODIES_SNAPSHOT))
+    except FileNotFoundError:
+        raise AnchorLost('missing ' + BODIES_SNAPSHOT)
+    bad = [k for k in sorted(set(got) | set(ref)) if got.get(k) != ref.get(k)]
+    if bad:
+        raise AnchorLost('not the body the model was written against: ' + ', '.join(bad))
+
+
 def read_body(block, rx, what):
     body = inner_fn_body(block, 'poll_read')
     m = rx.match(body)
@@ -125,6 +246,7 @@ def read_body(block, rx, what):
 
 def extract(repo):
     f, spans = {}, {}
+    check_bodies(repo)
 
     # ---- session id conversion and encoding
     src = Source(repo + '/h3/src/webtransport/session_id.rs')
@@ -189,12 +311,21 @@ def extract(repo):
     if dpos < 0 or rpos < 0:
         raise AnchorLost('poll_next_varint decode/poll_read')
     f['buffer_first'] = dpos < rpos
-    # memo reset: `self.expected = None;` between the decode and its `return`
-    m = re.search(r'VarInt::decode\(', body)
-    ret = body.find('return Poll::Ready(Ok((result', m.end())
-    if ret < 0:
-        raise AnchorLost('poll_next_varint return')
-    f['memo_reset'] = bool(re.search(r'self\.expected\s*=\s*None\s*;', body[m.end():ret]))
+    # memo reset: a `self.expected = None;` anywhere inside the block that returns the decoded value (order of the
+    # independent statements in that block does not matter); read on the whitespace-free body
+    sq = squash(body)
+    bm = re.search(r'ifmatches!\(self\.expected,Some\(expected\)ifbuf\.remaining\(\)(>=|>)expected\)\{', sq)
+    if not bm:
+        raise AnchorLost('poll_next_varint completeness test')
+    bi = bm.end() - 1
+    bj = match_close(sq, bi)
+    blk = sq[bi + 1:bj]
+    if not blk.endswith('returnPoll::Ready(Ok((result,stream_stopped)));') or blk.count('return') != 1:
+        raise AnchorLost('poll_next_varint value block')
+    nreset = sq.count('self.expected=None;')
+    if nreset != blk.count('self.expected=None;') or nreset > 1:
+        raise AnchorLost('poll_next_varint: memo reset outside the value block')
+    f['memo_reset'] = (nreset == 1)
     m = re.search(r'self\.expected\.is_none\(\)\s*&&\s*buf\.remaining\(\)\s*>=\s*(\d+)', body)
     if not m or not re.search(r'self\.expected\s*=\s*Some\(\s*VarInt::encoded_size\(\s*buf\.chunk\(\)\[0\]\s*\)\s*\)', body):
         raise AnchorLost('poll_next_varint memo')
@@ -317,6 +448,11 @@ def extract(repo):
     j = match_close(body, i)
     if not re.search(r'self\.accepted_streams\.wt_uni_streams\.push\(\(\s*' + m.group(1) + r'\s*,\s*' + m.group(2) + r'\s*\)\)', body[i:j]):
         raise AnchorLost('WebTransportUni arm push')
+    # an arm for the case the guard refuses (absent today: the stream falls through `_ => ()`)
+    md = re.search(r'AcceptedRecvStream::WebTransportUni\(\s*_\s*,\s*mut\s+stream\s*\)\s*=>\s*\{\s*stream\.stop_sending\(\s*Code::(\w+)\.value\(\)\s*\)\s*;\s*\}', body)
+    if md and md.start() < m.start():
+        raise AnchorLost('disabled-case arm in front of the guarded arm')
+    f['disabled_stop_code'] = md.group(1) if md else None
     m = re.search(r'AcceptedRecvStream::Unknown\(\s*mut\s+stream\s*\)\s*=>', body)
     if not m:
         raise AnchorLost('Unknown arm')
@@ -388,6 +524,9 @@ def render(f):
          '(* poll_accept_recv: guard of the WebTransportUni arm. 0 = no guard, 1 = config.settings.enable_webtransport, 2 = its negation *)',
          'Definition wt_gate : N := %d.' % {'none': 0, 'local_enable_webtransport': 1, 'not_local_enable_webtransport': 2}[f['gate']],
          'Definition wt_unknown_stop_code : N := %s.' % f['unknown_stop_code'],
+         '(* a 0x54 stream refused by the guard: true = an explicit arm sends STOP_SENDING(code); false = it falls through `_ => ()` *)',
+         'Definition wt_disabled_stops : bool := %s.' % b(f['disabled_stop_code'] is not None),
+         'Definition wt_disabled_stop_code : N := %s.' % (f['disabled_stop_code'] or '0'),
          'Definition wt_fallthrough_is_noop : bool := %s.' % b(f['fallthrough_is_noop']),
          'Definition wt_end_of_stream_removes : bool := %s.' % b(f['end_of_stream_removes']),
          'Definition wt_session_from_connect_stream : bool := %s.' % b(f['session_from_connect_stream']),
@@ -400,3 +539,11 @@ def render(f):
          '(* BidiStream::split for BufRecvStream: the buffered bytes go to the receive half *)',
          'Definition wt_split_buf_to_recv : bool := %s.' % b(f['split_buf_to_recv'])]
     return '\n'.join(L) + '\n'
+
+
+if __name__ == '__main__':
+    # python3 gen_webtransport.py --snapshot : (re)write the body snapshot from /repo (done by hand, when the model is updated)
+    import sys
+    if len(sys.argv) > 1 and sys.argv[1] == '--snapshot':
+        json.dump(collect_bodies(sys.argv[2] if len(sys.argv) > 2 else '/repo'), open(BODIES_SNAPSHOT, 'w'), indent=1, sort_keys=True)
+        print('wrote', BODIES_SNAPSHOT)
